@@ -141,8 +141,9 @@ def run(tier, seed, replay_path):
     jobs = [lambda d=dev: expect_violation("MCMolEdit", cfg("Ids3", "Fr1", 3, True, d), INV + PROPS, tag="c05dev", workers=4)
             for dev in ("DevNoneCharge", "DevKeepBonds", "DevWrongRow")]
     if tier == "quick":
-        jobs += [lambda: one(tier, seed, ev, rep, "Molecule", "Ids3", "Fr1", 2, budget=25, maxview=1),
-                 lambda: one(tier, seed, ev, rep, "Structure", "Ids3", "Fr1", 2, budget=15, maxview=1, withnew=True),
+        # (the held-view config without library-created hydrogens: they multiply its states by four; hydrogens x views is thorough-only)
+        jobs += [lambda: one(tier, seed, ev, rep, "Molecule", "Ids3", "Fr0", 2, budget=15, maxview=1),
+                 lambda: one(tier, seed, ev, rep, "Structure", "Ids3", "Fr1", 2, budget=12, maxview=0, withnew=True),
                  # three live atoms, parallel bonds and the batch forms; no library-created atoms (keeps the graph small)
                  lambda: one(tier, seed, ev, rep, "Molecule", "Ids3", "Fr0", 3, budget=25, maxview=0, maxpar=1, ap="AP0"),
                  lambda: direction_b(tier, seed, ev, rep)]
